@@ -61,6 +61,7 @@ struct Script {
 struct History {
   std::vector<Script> scripts;
   std::vector<uint32_t> inter;  // interleaving: indices of the script that makes its next step
+  uint32_t reenter = 0;         // that many source-callback invocations make ANOTHER session take its next step from inside the callback
 };
 
 inline std::string to_text(const History& h) {
@@ -88,6 +89,7 @@ inline std::string to_text(const History& h) {
     for (uint32_t i : h.inter) o << " " << i;
     o << "\n";
   }
+  if (h.reenter) o << "reenter " << h.reenter << "\n";
   return o.str();
 }
 
@@ -136,6 +138,8 @@ inline bool from_text(const std::string& text, History& h, std::string* err = nu
       cur->steps.push_back(st);
     } else if (w == "end") {
       cur = nullptr;
+    } else if (w == "reenter") {
+      ls >> h.reenter;
     } else if (w == "inter") {
       uint32_t i; while (ls >> i) h.inter.push_back(i);
     } else {
